@@ -111,6 +111,10 @@ void snoopy_message_generateFromFormat (
         }
         dataSourceTag[0]    = '\0';
         dataSourceTagLength = (int)((fmtPos_nextFormatTagClose-1) - (fmtPos_nextFormatTag+2) + 2);
+        if (dataSourceTagLength > (int) sizeof(dataSourceTag)) {
+            // Overlong tag: only keep what fits (it cannot name an existing data source anyway)
+            dataSourceTagLength = (int) sizeof(dataSourceTag);
+        }
         snprintf(dataSourceTag, dataSourceTagLength, "%s", fmtPos_nextFormatTag + 2);
 
         // If data source tag contains ":", then split it into data source name and data source argument
